@@ -10,6 +10,7 @@ import FemtoVerif.Driver.C10
 import FemtoVerif.Driver.C16
 import FemtoVerif.Driver.C19
 import FemtoVerif.Driver.C18
+import FemtoVerif.Driver.C05
 open Lean
 
 namespace Femto.Driver
@@ -39,6 +40,7 @@ def dispatch (op : String) (j : Json) : Except String Json :=
   | "c19.merge" => C19.merge j
   | "c19.filter" => C19.filter j
   | "c18.table" => C18.table j
+  | "c05.dig" => C05.dig j
   | _ => .error s!"unknown op {op}"
 
 def handleLine (line : String) : String :=
